@@ -25,6 +25,7 @@ type C05Op struct {
 }
 
 type C05Scenario struct {
+	Sys   *C05SysScenario `json:"sys,omitempty"` // system-layer scenario (the fields below are unused then)
 	Seed  uint64  `json:"seed"`
 	Ctr   uint64  `json:"ctr"` // frame counter the stream starts at
 	Msgs  []int   `json:"msgs"` // plaintext lengths
@@ -35,6 +36,9 @@ type C05Scenario struct {
 var c05Kinds = []string{"flip", "trunc", "drop", "dup", "swap", "replay", "reflect", "xsess", "splice", "insert", "lenbit", "tagbit", "xctr", "xctr"}
 
 func genC05(rt *rapid.T) interface{} {
+	if rapid.IntRange(0, 3).Draw(rt, "layer") == 0 {
+		return &C05Scenario{Sys: genC05Sys(rt)}
+	}
 	sc := &C05Scenario{Seed: rapid.Uint64().Draw(rt, "seed"), Chunk: rapid.IntRange(0, 4).Draw(rt, "chunk")}
 	sc.Ctr = rapid.SampledFrom(interestingCounters).Draw(rt, "ctr")
 	n := rapid.IntRange(1, 4).Draw(rt, "nmsg")
@@ -71,6 +75,9 @@ func splitFrames(b []byte) [][]byte {
 
 func runC05(t *testing.T, sci interface{}) *Outcome {
 	sc := sci.(*C05Scenario)
+	if sc.Sys != nil {
+		return runC05Sys(t, sc.Sys)
+	}
 	o := &Outcome{Stats: map[string]int{}}
 	rng := mrand.NewChaCha8(seedBytes(sc.Seed, 5))
 	var shared, other [32]byte
